@@ -96,15 +96,28 @@ theorem ne_zero_of_not_absS_lt {d : ℝ} (h : ¬ absS d < (Simplex.EPS : ℝ)) :
   simp only [absS, lt_self_iff_false, if_false]
   exact EPSs_pos
 
-/-- non-degenerate band of `get_barycentric_coordinates_plane`: the Gram determinant of the two
-edges it uses is at least `EPSILON` in absolute value -/
+/-- the repaired (relative) degeneracy test `|den| ≤ ε·L⁴` holds for `den = 0` -/
+theorem ne_zero_of_not_absS_le {d L : ℝ} (h : ¬ absS d ≤ (Simplex.EPS : ℝ) * L * L) : d ≠ 0 := by
+  rintro rfl
+  apply h
+  simp only [absS, lt_self_iff_false, if_false]
+  have := mul_nonneg EPSs_pos.le (mul_self_nonneg L)
+  linarith
+
+/-- non-degenerate band of `get_barycentric_coordinates_plane` (after repair dbe9d34, scale free):
+the Gram determinant of the two edges the routine uses (`= 4·area²`) exceeds `EPSILON · L⁴` in
+absolute value, `L²` the longest squared edge — the negation of the code's test
+`abs(denominator) <= EPSILON * max_edge_len_sq * max_edge_len_sq`, the same criterion as
+`Simplex.TriRegular` -/
 def jnd3 (a b c : V) : Prop :=
   if V3.dot (b - a) (b - a) ≤ V3.dot (c - b) (c - b) then
     ¬ absS (V3.dot (b - a) (b - a) * V3.dot (c - a) (c - a)
-        - V3.dot (b - a) (c - a) * V3.dot (b - a) (c - a)) < (Simplex.EPS : ℝ)
+        - V3.dot (b - a) (c - a) * V3.dot (b - a) (c - a)) ≤
+      (Simplex.EPS : ℝ) * Simplex.maxEdgeLenSq a b c * Simplex.maxEdgeLenSq a b c
   else
     ¬ absS (V3.dot (c - a) (c - a) * V3.dot (c - b) (c - b)
-        - V3.dot (c - a) (c - b) * V3.dot (c - a) (c - b)) < (Simplex.EPS : ℝ)
+        - V3.dot (c - a) (c - b) * V3.dot (c - a) (c - b)) ≤
+      (Simplex.EPS : ℝ) * Simplex.maxEdgeLenSq a b c * Simplex.maxEdgeLenSq a b c
 
 theorem cdiv_ok {x y : ℝ} (hy : y ≠ 0) : Simplex.cdiv x y = .ok (x / y) := by
   unfold Simplex.cdiv
@@ -121,11 +134,12 @@ theorem joltBary_plane_spec (a b c : V) (u v w : ℝ) (x : V) (hnd : jnd3 a b c)
   -- the two normal equations in terms of the dot products the routine computes
   rw [hxe, hl0] at ho1 ho2
   unfold jnd3 at hnd
+  simp only [Simplex.maxEdgeLenSq] at hnd
   simp only [joltBary, Simplex.baryPlane, bind, Except.bind] at h
   by_cases hbr : V3.dot (b - a) (b - a) ≤ V3.dot (c - b) (c - b)
   · simp only [hbr, if_true] at hnd h
     simp only [hnd, if_false] at h
-    have hden := ne_zero_of_not_absS_lt hnd
+    have hden := ne_zero_of_not_absS_le hnd
     rw [cdiv_ok hden, cdiv_ok hden] at h
     simp only [Except.ok.injEq, Prod.mk.injEq] at h
     obtain ⟨hu, hv, hw⟩ := h
@@ -149,7 +163,7 @@ theorem joltBary_plane_spec (a b c : V) (u v w : ℝ) (x : V) (hnd : jnd3 a b c)
     rw [hu', hv', hw', hxe]
   · simp only [hbr, if_false] at hnd h
     simp only [hnd, if_false] at h
-    have hden := ne_zero_of_not_absS_lt hnd
+    have hden := ne_zero_of_not_absS_le hnd
     rw [cdiv_ok hden, cdiv_ok hden] at h
     simp only [Except.ok.injEq, Prod.mk.injEq] at h
     obtain ⟨hu, hv, hw⟩ := h
